@@ -67,7 +67,7 @@ fn main() {
         run.finish();
     }
 
-    let max_depth: usize = std::env::var("C14_DEPTH").ok().and_then(|s| s.parse().ok()).unwrap_or(run.tier.pick(3, 8));
+    let max_depth: usize = std::env::var("C14_DEPTH").ok().and_then(|s| s.parse().ok()).unwrap_or(run.tier.pick(2, 8));
     let roots = [Root::Admin, Root::Loopback, Root::AdminAB];
     let select = Select { only_phase: None, lite: run.tier == vcore::Tier::Quick };
     let threads = util::n_threads();
